@@ -245,6 +245,7 @@ def real_bytes(chk: core.Check, thorough: bool):
         if not p.exists():
             continue
         n_api_full = 0
+        n_br_file = 0
         with uproot.open(p) as f:
             tree = f["Event"]
             names = collection_branches(tree)
@@ -260,12 +261,16 @@ def real_bytes(chk: core.Check, thorough: bool):
                 basket = br.basket(0)
                 data, bo = np.asarray(basket.data), np.asarray(basket.byte_offsets)
                 n_br += 1
+                n_br_file += 1
 
                 def decode(lo, hi):
                     return interp.basket_array(data[bo[lo]:bo[hi]], bo[lo:hi + 1] - bo[lo], basket, br, {}, basket.member("fKeylen"), lib, {})
                 # partitions of the n events into consecutive baskets
                 if thorough:
-                    parts = [c for r in range(0, n) for c in itertools.combinations(range(1, n), r)][: 512]
+                    # every partition x every interval for three branches per file (512 x 55 each), a seeded sample of 24 partitions for the others
+                    # (all partitions of all ~30 branches of all fixtures is > 4 million final_array calls: > 2 h)
+                    allp = [c for r in range(0, n) for c in itertools.combinations(range(1, n), r)][: 512]
+                    parts = allp if n_br_file <= 3 else [allp[int(i)] for i in rng.choice(len(allp), size=min(24, len(allp)), replace=False)]
                 else:
                     parts = [tuple(sorted(rng.choice(np.arange(1, n), size=int(rng.integers(1, min(5, n))), replace=False).tolist())) for _ in range(3)] + [tuple(range(1, n))]
                 for cut in parts:
